@@ -243,5 +243,8 @@ def gen_dissolution_config(rng, system='nialcr', tier='quick'):
     else:
         cfg['segments'] = [t_age + t_ramp + t_hold]
     cfg['max_steps'] = 2200 if tier == 'quick' else 8000
+    # Ni-Al-Cr steps cost up to 0.3 s once the matrix has left the two-phase field (search for a two-phase equilibrium in every
+    # growth evaluation): the run also ends on a wall budget
+    cfg['wall_budget'] = 120.0 if tier == 'quick' else 600.0
     cfg['dissolution'] = True
     return cfg
